@@ -733,9 +733,17 @@ def expand_for(lines, root):
             names = [x.strip() for x in m.group(1).split(",")]
             spec = m.group(2).strip()
             if spec.startswith("@"):
+                key = spec[1:]
+                only = None
+                if key in ("ONE", "ONE_SIGNED"):
+                    # unit instance for a single family (driver runs the ten instances in parallel)
+                    only = PARAMS.get("FAM")
+                    key = "ALL10" if key == "ONE" else "SIGNED5"
                 for fl in open(root + "/specs/families.txt"):
-                    if fl.startswith(spec[1:] + ":"):
+                    if fl.startswith(key + ":"):
                         spec = fl.split(":", 1)[1]
+                if only is not None:
+                    spec = " ".join("(" + t + ")" for t in re.findall(r"\(([^()]*)\)", spec) if t.split(";")[0].strip() == only)
             tuples = re.findall(r"\(([^()]*)\)", spec)
             depth = 1
             j = i + 1
@@ -760,7 +768,12 @@ def expand_for(lines, root):
     return out
 
 
-def render_unit(idx, tmpl_path, root, must_fail=False):
+PARAMS = {}
+
+
+def render_unit(idx, tmpl_path, root, must_fail=False, params=None):
+    PARAMS.clear()
+    PARAMS.update(params or {})
     """Returns (text, table, linemap).  linemap: list of (first_line, last_line, item)."""
     with open(tmpl_path) as f:
         lines = expand_for(expand_includes(f.read().split("\n"), root), root)
